@@ -101,6 +101,7 @@ type SerialCase struct {
 	Rendered []string `json:"rendered,omitempty"`
 	Long     []int    `json:"long,omitempty"` // C05: extra triples with a text literal padded so that the printed line has exactly this length
 	Big      int      `json:"big,omitempty"`  // C05: this many extra small triples (graphs larger than any page / buffer size)
+	Conc     bool       `json:"conc,omitempty"`    // C15: the parsers are called by several tasks at once (anything they share - a cache, a scratch value - is exposed to interleaving)
 	Deep     bool       `json:"deep,omitempty"`    // C15 thorough tier: every bit flip, every reader-failure offset and every (lost head x lost separator) pair of small images
 	SrcFail  *FaultSpec `json:"srcfail,omitempty"` // C05: the graph being exported fails its listing (before the first / after j triples)
 	DstFail  int        `json:"dstfail,omitempty"` // C05: the graph being loaded refuses its k-th AddTriples call (0: never)
@@ -188,6 +189,7 @@ func (h *serialHarness) Gen(r *Rand, tier string, clean bool) any {
 	} else {
 		c.Damage = "enumerate"
 		c.Deep = tier == "thorough"
+		c.Conc = r.Chance(0.1)
 	}
 	return c
 }
@@ -719,6 +721,111 @@ func applyOne(spec string, img []byte) []byte {
 	return out
 }
 
+// parseOutcome: what a parser made of a text, comparable across calls.
+func parseOutcome(kind, text string) string {
+	defer func() { recover() }()
+	switch kind {
+	case "node":
+		if n, err := node.Parse(text); err == nil && n != nil {
+			return "ok " + nodeKey(n) + " " + n.String()
+		}
+	case "predicate":
+		if p, err := predicate.Parse(text); err == nil && p != nil {
+			return "ok " + predKey(p) + " " + p.String()
+		}
+	case "literal":
+		if l, err := literal.DefaultBuilder().Parse(text); err == nil && l != nil {
+			return "ok " + litKey(l) + " " + l.String()
+		}
+	case "triple":
+		if tr, err := triple.Parse(text, literal.DefaultBuilder()); err == nil && tr != nil {
+			return "ok " + tripleKey(tr) + " " + tr.String()
+		}
+	}
+	return "rejected"
+}
+
+// runConcurrentParse: the texts of an exported image (lines and fields) are parsed by several tasks at once under the
+// seeded scheduler (the value packages are instrumented in this check's build); every result must be what the same
+// call gives on its own.
+func (h *serialHarness) runConcurrentParse(t *testing.T, c *SerialCase, img []byte) *Outcome {
+	o := okOutcome()
+	type item struct{ kind, text string }
+	var items []item
+	for _, ln := range strings.Split(string(img), "\n") {
+		if strings.TrimSpace(ln) == "" {
+			continue
+		}
+		items = append(items, item{"triple", ln})
+		for i, f := range strings.Split(ln, "\t") {
+			switch {
+			case i == 0:
+				items = append(items, item{"node", f})
+			case i == 1:
+				items = append(items, item{"predicate", f})
+			default:
+				items = append(items, item{"node", f}, item{"predicate", f}, item{"literal", f})
+			}
+		}
+	}
+	if len(items) == 0 {
+		return o
+	}
+	alone := make([]string, len(items))
+	for i, it := range items {
+		alone[i] = parseOutcome(it.kind, it.text)
+	}
+	r := NewRand(c.Seed, 151)
+	ntasks := r.Range(2, 3)
+	calls := make([][]int, ntasks)
+	for ti := range calls {
+		for k, m := 0, r.Range(3, 8); k < m; k++ {
+			calls[ti] = append(calls[ti], r.Intn(len(items)))
+		}
+	}
+	type obs struct {
+		task, idx int
+		got       string
+	}
+	var seen []obs
+	tape := sim.NewTape(c.Seed)
+	res, bmsg := simRun(t, tape, sim.Config{Preempt: int(c.Seed % 6), PreemptMean: 8, MaxSteps: 400000, Trace: traceOn}, func(rt *sim.Runtime) {
+		for ti := range calls {
+			ti := ti
+			rt.Client(fmt.Sprintf("p%d", ti), func() {
+				for _, idx := range calls[ti] {
+					sim.Point(-50)
+					seen = append(seen, obs{ti, idx, parseOutcome(items[idx].kind, items[idx].text)})
+				}
+			})
+		}
+	})
+	if res == nil {
+		return infra("no result: %s", bmsg)
+	}
+	if res.Hazard != "" {
+		return infra("scheduler hazard: %s", res.Hazard)
+	}
+	o.stat("steps", res.Steps)
+	o.stat("concurrent_parse_calls", int64(len(seen)))
+	o.Execs = 1
+	if len(res.Panics) > 0 {
+		return violation("C15:panic:"+panicSite(res.Panics[0]), "panic while parsing concurrently: %s", firstLines(res.Panics[0], 20))
+	}
+	if res.Deadlock || res.StepCap {
+		return violation("C15:no-progress:concurrent-parse", "%s", joinLines(res.Stuck, 6))
+	}
+	for _, s := range seen {
+		if s.got != alone[s.idx] {
+			return violation("C15:parse-depends-on-concurrent-callers:"+items[s.idx].kind, "task %d: %s.Parse(%q) = %q while other tasks were parsing, %q on its own", s.task, items[s.idx].kind, items[s.idx].text, s.got, alone[s.idx])
+		}
+	}
+	o.NonTrivial = res.Decisions > 0
+	o.Hash = hashStr(fmt.Sprint(c.Ts, c.Wild, "conc", res.SchedHash))
+	o.Sample = map[string]any{"image": strings.Split(string(img), "\n"), "concurrent_calls": calls}
+	return o
+}
+
 func (h *serialHarness) runDamage(t *testing.T, c *SerialCase) *Outcome {
 	o := okOutcome()
 	ctx := context.Background()
@@ -730,6 +837,9 @@ func (h *serialHarness) runDamage(t *testing.T, c *SerialCase) *Outcome {
 	w := &simWriter{failAt: -1}
 	if _, err := bwio.WriteGraph(ctx, w, src); err != nil {
 		return infra("export failed: %v", err)
+	}
+	if c.Conc {
+		return h.runConcurrentParse(t, c, w.buf)
 	}
 	r := NewRand(c.Seed, 15)
 	o.Execs = 0
